@@ -6,7 +6,7 @@ from harness.common import LINE_TERMINATORS, VERSIONS, Reject, Violation, listen
 PROPERTY = "C01"
 BOUNDS = {
     "quick": "node,child sym [0,255]; ack sym [0,1]; type sym [-1,99]; payload symbolic unicode (';' allowed, no line terminator, no trailing whitespace, no lone surrogate) |p|<=1, and |p|<=2 for set messages under 2.2; versions 1.4 and 2.2 x 5 commands, 1.5/2.0/2.1 x internal; re-encode with 4 trailing-whitespace variants (set, type [0,9], |p|<=1, versions 1.5, 2.1); gateway send->listen under 2.0 (node [0,99], type [0,9], |p|<=1)",
-    "thorough": "node,child sym [0,255]; ack; type sym [-3,100000]; |p|<=3; 5 versions x 5 commands; re-encode 5 versions x 5 commands (type [0,999], |p|<=2); gateway send->listen 5 versions x {set, internal} (type [0,99], |p|<=2)",
+    "thorough": "node,child sym [0,255]; ack; type sym [-3,100000]; |p|<=3; 5 versions x 5 commands; re-encode 5 versions x 5 commands (type [0,999], |p|<=2); gateway send->listen 5 versions x {set, internal} (node [0,255], type [0,9], |p|<=1)",
 }
 REALISED = ["negative type numbers are realised by CrossHair's int() model (window [-3,-1])"]
 STUBS = ["RecTransport (gateway variant)", "Message.__repr__ -> constant"]
@@ -38,8 +38,8 @@ def partitions(tier):
     for v in VERSIONS if not q else ["2.0"]:
         for cmd in (1, 3):
             parts.append({"name": "gateway-%s-cmd%d" % (v, cmd), "fn": "sym_gateway_roundtrip", "version": v, "cmd": cmd,
-                          "maxlen": 1 if q else 2, "tlo": 0, "thi": 9 if q else 99, "idlo": 10 if q else 0, "idhi": 99 if q else 255,
-                          "budget": 400 if q else 2400, "cost": 4})
+                          "maxlen": 1, "tlo": 0, "thi": 9, "idlo": 10 if q else 0, "idhi": 99 if q else 255,
+                          "budget": 400 if q else 3000, "cost": 4 if q else 12})
     return parts
 
 
